@@ -13,7 +13,14 @@ class C08(C01):
                   "= i for every ballot shape including empty categories in any position, independent-reader content, "
                   "and byte-identical second write; model bytes and parse results compared with the real code on "
                   "every run")
-    theorems = []
+    theorems = [
+        "PrefVerif.C08.scan_render",
+        "PrefVerif.C08.roundtrip",
+        "PrefVerif.C08.roundtrip_get",
+        "PrefVerif.C08.norm_same",
+        "PrefVerif.C08.rewrite",
+        "PrefVerif.C08.independent_reader",
+    ]
     rule = ("random well-formed categorical instances: 1-4 categories, ballots with empty / singleton / larger "
             "categories in first, middle and last position, unplaced alternatives, multiplicities 1-15, category and "
             "alternative names over the adversarial alphabet; non-trivial = at least 2 ballots")
